@@ -98,7 +98,7 @@ func zeroRead(m spec.Message, tag uint16, k vg.Kind) string {
 // C16Dynamic: schema evolution through the dynamic tag-based API.
 func C16Dynamic(c *runner.Cfg) *report.Result {
 	res := report.New("C16", "dynamic")
-	res.Rule = "dynamic API: a message with a random tag set S (all field kinds, random write order, tags on both sides of 255/256) is read under a reader tag set S' (S' = S with random removals, additions and re-ordering): common tags equal the written values, tags of S'\\S read as zero of the reader's declared kind with presence false and without error, tags of S\\S' do not disturb anything; Copy/Merge: a writer that knows only a subset K of the fields writes new values for K, then merges the old message: K keeps the new values, every unknown field keeps the old one (half of the merges in a nested message whose parent already wrote fields with tags of the same set); non-trivial = both S\\S' and S'\\S non-empty or a merge with unknown fields; distinct = distinct encodings"
+	res.Rule = "dynamic API: a message with a random tag set S (all field kinds, random write order, tags on both sides of 255/256) is read (by a third of the readers through a Clone kept while the source buffer is reused for another message) under a reader tag set S' (S' = S with random removals, additions and re-ordering): common tags equal the written values, tags of S'\\S read as zero of the reader's declared kind with presence false and without error, tags of S\\S' do not disturb anything; Copy/Merge: a writer that knows only a subset K of the fields writes new values for K, then merges the old message: K keeps the new values, every unknown field keeps the old one (half of the merges in a nested message whose parent already wrote fields with tags of the same set); non-trivial = both S\\S' and S'\\S non-empty or a merge with unknown fields; distinct = distinct encodings"
 	x := map[*journal.Slot]*vg.Exec{}
 	mu := make(chan struct{}, 1)
 	mu <- struct{}{}
@@ -148,6 +148,23 @@ func C16Dynamic(c *runner.Cfg) *report.Result {
 		if perr != nil {
 			res.Violate("c16:open", perr.Error(), witness(nil))
 			return
+		}
+		// a third of the readers keep a clone of the message while the buffer it arrived in is reused
+		// for a differently shaped message (a receive buffer): the clone is what A' reads
+		if idx%3 == 0 {
+			src := append(make([]byte, 0, len(ab)+32), ab...)
+			kept := spec.OpenMessage(src).Clone()
+			other, _ := ex.Run(vg.Msg(vg.F(2, vg.Scalar(vg.KInt64, uint64(idx))), vg.F(9, vg.Blob(vg.KString, []byte("the next message in the same buffer"))), vg.F(600, vg.Scalar(vg.KBool, 1))), vg.WFresh)
+			full := src[:cap(src)]
+			for i := 0; i < len(full); i += max(len(other), 1) {
+				copy(full[i:], other)
+			}
+			if m := vg.CheckMessage(a, kept); !m.OK() {
+				res.Violate("c16:kept-clone-differs:"+normKey(m.List[0]), fmt.Sprintf("a clone of the schema-A message, read after the buffer it was opened from had been reused, differs: %v", m.List), witness(m.List))
+				return
+			}
+			msg = kept
+			res.Count("readers_holding_a_clone", 1)
 		}
 		// reader schema A': added fields (not in the data) of random declared kinds
 		added := 0
